@@ -111,6 +111,25 @@ theorem leak_counterexample :
             = some ([0, 1, 3/2, 2].map (stepAt [0, 1] [2, 3/4]))) := by
   decide +kernel
 
+/-- **fill_eq_step for the repaired padding** (fixes/C14-2.patch: the last element of a full-length step coefficient is
+replaced by 0): the hypothesis `LastZero` is gone — for *every* coefficient array of length `n-1` or `n` the resampled
+coefficient at every merged point is the channel's step function there. -/
+theorem fill_eq_step_repaired (tol : Rat) (grids : List (List Rat)) (T tl cs : List Rat) (htol : 0 ≤ tol)
+    (hgr : ∀ g ∈ grids, GoodGrid g) (hsep : SepAll tol grids) (hmem : tl ∈ grids)
+    (hT : fullTlist tol grids = some T)
+    (hlen : cs.length + 1 = tl.length ∨ cs.length = tl.length) :
+    fillV true tol tl cs T = .ok (T.map (stepAt tl cs)) := by
+  unfold fillV
+  rw [fill_eq_step tol grids T tl _ htol hgr hsep hmem hT (lastZero_normCoeff tl cs hlen (hgr tl hmem).2.2)]
+  congr 1
+  apply List.map_congr_left
+  intro t _
+  exact stepAt_normCoeff tl cs t hlen
+
+-- the witness of `leak_counterexample` under the repaired padding
+example : (fullCoeffsV true (1/10000000000) [.arr [0, 1] [2, 3/4], .arr [0, 3/2, 2] [1/2, 1/4]]).toOption
+    = some ([0, 1, 3/2, 2], [[2, 0, 0, 0], [1/2, 1/2, 1/4, 0]]) := by decide +kernel
+
 /-- **piecewise_constant.** Between two consecutive merged points no channel changes its value: for every
 `t` in `[T_k, T_{k+1})` the step function of a channel whose grid points all belong to `T` equals its value
 at `T_k`.  Hence `H(t) = drift + Σ_m c_m(T_k) H_m` on the whole slot, and the ordered product of the slice
@@ -157,6 +176,34 @@ theorem fullCoeffs_eq (tol : Rat) (chans : List (List Rat × List Rat)) (htol : 
         (fun g hg => by obtain ⟨c', hc', rfl⟩ := List.mem_map.mp hg; exact hgr c' hc')
         hsep (List.mem_map.mpr ⟨c, hc, rfl⟩) hT (hz c hc))]
   simp [List.map_map, Function.comp_def]
+
+/-- **get_full_coeffs for the repaired padding**: no `LastZero` hypothesis. -/
+theorem fullCoeffs_eq_repaired (tol : Rat) (chans : List (List Rat × List Rat)) (htol : 0 ≤ tol) (hne : chans ≠ [])
+    (hgr : ∀ c ∈ chans, GoodGrid c.1)
+    (hlen : ∀ c ∈ chans, c.2.length + 1 = c.1.length ∨ c.2.length = c.1.length)
+    (hsep : SepAll tol (chans.map (·.1))) :
+    fullCoeffsV true tol (chans.map fun c => Chan.arr c.1 c.2) =
+      .ok (sortU (chans.map (·.1)).flatten,
+           chans.map fun c => (sortU (chans.map (·.1)).flatten).map (stepAt c.1 c.2)) := by
+  unfold fullCoeffsV
+  have hmap : (chans.map fun c => Chan.arr c.1 c.2).map (Chan.norm true) =
+      (chans.map fun c => (c.1, normCoeff true c.1 c.2)).map fun c => Chan.arr c.1 c.2 := by
+    simp [List.map_map, Function.comp_def, Chan.norm]
+  rw [hmap]
+  have h1 : (chans.map fun c => (c.1, normCoeff true c.1 c.2)).map (·.1) = chans.map (·.1) := by
+    simp [List.map_map, Function.comp_def]
+  rw [fullCoeffs_eq tol _ htol (by simpa using hne)
+    (by intro c hc; obtain ⟨c', hc', rfl⟩ := List.mem_map.mp hc; exact hgr c' hc')
+    (by intro c hc; obtain ⟨c', hc', rfl⟩ := List.mem_map.mp hc
+        exact lastZero_normCoeff c'.1 c'.2 (hlen c' hc') (hgr c' hc').2.2)
+    (by rw [h1]; exact hsep)]
+  rw [h1, List.map_map]
+  congr 2
+  apply List.map_congr_left
+  intro c hc
+  apply List.map_congr_left
+  intro t _
+  exact stepAt_normCoeff c.1 c.2 t (hlen c hc)
 
 /-- **Reload is a fixed point**: a channel given on the merged grid with a full-length coefficient array
 (what `read_coeff` installs) resamples to itself. -/
@@ -278,5 +325,19 @@ table and `coeffs[0]` is a scalar. -/
 theorem save_read_shape_counterexample (rows : Nat) : readCoeffLen false rows 1 0 = none := by
   unfold readCoeffLen loadShape
   by_cases h : rows = 1 <;> simp [List.filter, h]
+
+/-- **save/read round trip on shape, repaired** (fixes/C14-3.patch, `np.loadtxt(..., ndmin=2)`): every pulse gets back an
+array with one entry per merged time point — no condition on the number of pulses, columns or rows. -/
+theorem save_read_shape_repaired (inctime : Bool) (rows n i : Nat) (hi : i < n) :
+    readCoeffLenV true inctime rows n i = some rows := by
+  unfold readCoeffLenV loadShapeV
+  cases inctime <;> simp [hi]
+
+/-- the unrepaired variants are the original functions -/
+theorem variants_false : (∀ tol tl cs T, fillV false tol tl cs T = fill tol tl cs T) ∧
+    (∀ it rows n i, readCoeffLenV false it rows n i = readCoeffLen it rows n i) := by
+  constructor
+  · intro tol tl cs T; simp [fillV, normCoeff]
+  · intro it rows n i; rfl
 
 end QipVerif.C14
